@@ -153,7 +153,7 @@ async def noise_case(loop, case):
             nt = loop.next_timer()
             if nt is None:
                 break
-            await simnet.advance(loop, to=nt + simnet.CLOCK_BASE)
+            await simnet.advance(loop, to=nt + loop.base)
         if not task.done():
             out = ("pending", None, None)
             task.cancel()
@@ -202,17 +202,23 @@ async def client_login_case(loop, password, invalid):
     return out, writes
 
 
-async def client_attempts_case(loop, names, expected):
-    """Consecutive plaintext connect attempts of one APIClient against devices announcing `names`."""
+async def client_attempts_case(loop, names, expected, when="ctor"):
+    """Consecutive plaintext connect attempts of one APIClient against devices announcing `names`; the expected name is configured in the
+    constructor, or through the public setter before the first start_connection() ("before") or between the first start_connection()
+    and its finish_connection() ("between")."""
     from aioesphomeapi import api_pb2 as pb
     from aioesphomeapi.client import APIClient
     net = simnet.Net(loop)
     outs, reads = [], []
     with net.patched():
-        cli = APIClient("10.0.0.1", 6053, None, expected_name=expected)
-        for name in names:
+        cli = APIClient("10.0.0.1", 6053, None, expected_name=expected if when == "ctor" else None)
+        if when == "before":
+            cli.expected_name = expected
+        for k, name in enumerate(names):
             try:
                 await cli.start_connection()
+                if when == "between" and k == 0:
+                    cli.expected_name = expected
                 task = asyncio.ensure_future(cli.finish_connection(login=False))
                 await simnet.drain(loop)
                 tr = net.transports[-1]
@@ -311,15 +317,16 @@ def run(rep, tier, seed):
         else:
             judge(rep, dict(case, order="HC" if case["login"] else "H"), out, state, stops, where, replay)
     # ---- consecutive attempts of ONE APIClient: every attempt is judged by the configured name alone, whatever earlier attempts met
-    for names, expected in ((["other-device", "other-device"], "dev"), (["other-device", "dev", "other-device"], "dev"), (["dev", "DEV"], "dev"),
-                            (["dev", "other-device"], None), (["other-device", "dev"], None), (["dev2", "dev2", "dev"], "dev")):
-        outs, reads = simnet.run(lambda loop: client_attempts_case(loop, names, expected))
+    for names, expected, when in ((["other-device", "other-device"], "dev", "ctor"), (["other-device", "dev", "other-device"], "dev", "ctor"), (["dev", "DEV"], "dev", "ctor"),
+                                  (["dev", "other-device"], None, "ctor"), (["other-device", "dev"], None, "ctor"), (["dev2", "dev2", "dev"], "dev", "ctor"),
+                                  (["other-device", "dev"], "dev", "before"), (["other-device", "dev", "other-device"], "dev", "between"), (["dev", "other-device"], "dev", "between")):
+        outs, reads = simnet.run(lambda loop: client_attempts_case(loop, names, expected, when))
         want = ["ok" if (expected is None or n == expected) else "L.BadName" for n in names]
-        rep.case(("client-attempts", tuple(names), expected), nontrivial="L.BadName" in want, sample={"client_attempts": names, "expected_name": expected, "outcomes": outs})
-        rep.bump("client-attempts")
-        replay = {"kind": "impl-case", "transport": "plaintext", "variant": "client-attempts", "names": names, "expected": expected}
+        rep.case(("client-attempts", tuple(names), expected, when), nontrivial="L.BadName" in want, sample={"client_attempts": names, "expected_name": expected, "configured": when, "outcomes": outs})
+        rep.bump("client-attempts:" + when)
+        replay = {"kind": "impl-case", "transport": "plaintext", "variant": "client-attempts", "names": names, "expected": expected, "when": when}
         if outs != want:
-            rep.violation("C06/name-rule-across-attempts", f"one APIClient (expected_name={expected!r}), consecutive attempts against devices named {names}: outcomes {outs}, "
+            rep.violation("C06/name-rule-across-attempts", f"one APIClient (expected_name={expected!r}, configured {when}), consecutive attempts against devices named {names}: outcomes {outs}, "
                           f"the name rule gives {want}", replay)
         elif any(r != expected for r in reads):
             rep.violation("C06/expected-name-changed", f"APIClient.expected_name configured as {expected!r} reads {reads} after the attempts against {names}", replay)
@@ -350,6 +357,14 @@ def replay(path):
     d = json.loads(open(path).read())["replay"]
     if d.get("kind") != "impl-case":
         print("nothing to replay:", d.get("kind"))
+        return 0
+    if d.get("variant") == "client-attempts":
+        outs, reads = simnet.run(lambda loop: client_attempts_case(loop, d["names"], d["expected"], d.get("when", "ctor")))
+        want = ["ok" if (d["expected"] is None or n == d["expected"]) else "L.BadName" for n in d["names"]]
+        print("outcomes:", outs, "name rule:", want, "expected_name reads:", reads)
+        return 1 if outs != want or any(r != d["expected"] for r in reads) else 0
+    if "case" not in d:
+        print("nothing to replay:", d.get("variant"))
         return 0
     rep = common.Report("C06", "quick", 0)
     case = d["case"]
